@@ -95,6 +95,8 @@ var goKindsFor = map[string][]string{
 	"date":  {"date", "pg:Date"},
 	"ts":    {"time", "pg:Timestamp"},
 	"tstz":  {"time", "pg:Timestamptz"},
+	"chars": {"string", "ptr:string"},
+	"doc":   {"string", "ptr:string"},
 }
 
 func oidFamily(oid uint32) string {
@@ -125,6 +127,10 @@ func oidFamily(oid uint32) string {
 		return "ts"
 	case pgwire.OIDTimestamptz:
 		return "tstz"
+	case pgwire.OIDName, pgwire.OIDBPChar:
+		return "chars"
+	case pgwire.OIDJSON, pgwire.OIDJSONB:
+		return "doc"
 	}
 	return ""
 }
@@ -132,6 +138,10 @@ func oidFamily(oid uint32) string {
 // baseOIDs are the types every generator may use; richOIDs adds date/time.
 var baseOIDs = []uint32{pgwire.OIDBool, pgwire.OIDInt2, pgwire.OIDInt4, pgwire.OIDInt8, pgwire.OIDFloat4, pgwire.OIDFloat8, pgwire.OIDText, pgwire.OIDVarchar, pgwire.OIDBytea, pgwire.OIDUUID, pgwire.OIDOid}
 var richOIDs = append(append([]uint32{}, baseOIDs...), pgwire.OIDDate, pgwire.OIDTimestamp, pgwire.OIDTimestamptz)
+
+// docOIDs adds the character-like types a handler fills from Go strings: name,
+// bpchar, json and jsonb (whose binary form is not its text).
+var docOIDs = append(append([]uint32{}, richOIDs...), pgwire.OIDName, pgwire.OIDBPChar, pgwire.OIDJSON, pgwire.OIDJSONB, pgwire.OIDJSONB)
 
 func genInt(r *Rand, lo, hi int64) int64 {
 	switch r.Intn(8) {
@@ -211,6 +221,10 @@ func genValRepr(r *Rand, oid uint32, fam string) Val {
 		v.FB = math.Float64bits(r.Float64())
 	case "text":
 		v.S = r.Str(r.PickInt(0, 0, 1, 3, 8, 20))
+	case "chars":
+		v.S = r.Ident(r.PickInt(1, 3, 8, 20))
+	case "doc":
+		v.S = r.Pick(`{}`, `[]`, `null`, `true`, `0`, `"x"`, `{"a":1}`, `[1,"é",null]`, `{"k":{"n":[1.5e3,false]}}`, `"`+r.Ident(r.Range(1, 12))+`"`)
 	case "bytes":
 		v.B = r.Bytes(r.PickInt(0, 0, 1, 2, 7, 33))
 	case "uuid":
@@ -329,7 +343,7 @@ func CheckEncodableTable() error {
 	m := pgtype.NewMap()
 	r := NewRand(12345)
 	r.Large = true
-	for _, oid := range richOIDs {
+	for _, oid := range docOIDs {
 		for i := 0; i < 200; i++ {
 			vals := []Val{genVal(r, oid), genNull(r, oid)}
 			for _, v := range vals {
